@@ -111,6 +111,21 @@ func (t *Truth) Samples(a, b time.Time) []time.Time {
 	return out
 }
 
+// IngestLag is the longest time the scenario's yield rules can hold a submission between the API call
+// and its insertion into the aggregation groups (every matching rule may sleep once per point).
+func (t *Truth) IngestLag() time.Duration {
+	var d time.Duration
+	for _, y := range t.R.Scenario.Yields {
+		switch y.Point {
+		case "worker.recv", "group.afterLoad", "group.beforeStore":
+			if y.Prob > 0 {
+				d += y.Sleep
+			}
+		}
+	}
+	return d
+}
+
 // LabelsOf returns the label set of an alert key.
 func (t *Truth) LabelsOf(key string) model.Labels { return t.R.Alerts.ByKey[key].Labels }
 
@@ -289,7 +304,7 @@ func Witness(r *scen.Result, extra map[string]any) map[string]any {
 	w := map[string]any{"scenario": r.Scenario, "config_yaml": r.Scenario.Config.YAML()}
 	var atts []map[string]any
 	for i, a := range r.Attempts() {
-		if i >= 200 {
+		if i >= 5000 {
 			break
 		}
 		atts = append(atts, describe(r, a))
